@@ -23,21 +23,21 @@ CHECKS = {
          "Real skl.Skiplist under sequential random Put sequences (vs sorted map) and under 6-12-way concurrent Put/Get/scan with unique tokens; histories checked per key with porcupine, scans checked for order/duplicates/torn values/missing completed puts; built with -race, reports inside skl are violations.",
          "Only interleavings the Go scheduler produced; many short histories.", "4/C22"),
  "C16": ("exploration", "runtime monitor: real log-file writer/replayer vs independent record model, byte-flip fault injection",
-         "Real logFile.writeEntry/iterate/read/decodeEntry (through verif_export) on generated record sequences, plain and encrypted; delivered entries, value pointers and end offsets compared with an independent encoder; single-byte flips in key/value/crc regions must remove the record's group and everything after it.",
+         "Real logFile.writeEntry/iterate/read/decodeEntry (through verif_export) on generated record sequences, plain and encrypted; delivered entries, value pointers and end offsets compared with an independent encoder (values up to 3 MiB); single-byte flips in key/value/crc regions must remove the record's group and everything after it.",
          "Flip positions sampled for large records; three records per file.", "4/C16"),
  "C17": ("exploration", "runtime monitor: real MANIFEST append/rewrite/replay vs reference map, truncation sweep and byte-flip injection",
-         "Real manifestFile.addChanges (rewrite threshold 5-50) and ReplayManifestFile on random change-set sequences; in-memory map, reference map and replay must agree after every set; every truncation offset since the last rewrite must replay to the last complete set; payload/crc flips must error.",
+         "Real manifestFile.addChanges (rewrite threshold 5-50; every third run starts with a stale MANIFEST-REWRITE file) and ReplayManifestFile on random change-set sequences; in-memory map, reference map and replay must agree after every set; every truncation offset since the last rewrite must replay to the last complete set; payload/crc flips must error.",
          "Duplicate CREATE (caller bug) not generated; length-field flips excluded (indistinguishable from torn tail).", "4/C17"),
 
  "C01": ("exploration", "history recording + MVCC reference model (offline read oracle), delay injection at hooks, race detector",
-         "Concurrent recorded histories (8-12 clients, RO/RW/long-lived snapshots) on 10 option variants with tiny memtables, background compaction, a GC loop in half of the histories and seeded delays at commit/flush/compaction/GC points; every Get and iterator result (tens of thousands per run) is compared offline with Visible(key, readTs) of a model built from marker-resolved commit timestamps.",
+         "Concurrent recorded histories (8-12 clients, RO/RW/long-lived snapshots) on 10 option variants with tiny memtables, background compaction, a GC loop in half of the histories and seeded delays at commit/flush/compaction/GC points; every Get and iterator result (tens of thousands per run) is compared offline with Visible(key, readTs) of a model built from marker-resolved commit timestamps; plus two deterministic GC/flush interleavings (GC write-back of an older version while the newest awaits a held flush; delete + compaction between GC scan and write-back).",
          "Only interleavings the scheduler and injected delays produce; AllVersions iteration checked in C05; histories with a GC loop hit the known GC-resurrection defect (known_findings.json).", "4/C01"),
  "C02": ("exploration", "history recording + conflict oracles (must-reject / must-accept) + bank invariant monitor, delay injection, race detector",
-         "Recorded RW histories on 5-10 keys in normal and managed mode incl. long-running transactions; oracle (a) no committed T overlaps a committed writer of a key it read, (b) every ErrConflict is justified, (c) rejected commits leave no marker; bank auditors assert the balance sum on every snapshot.",
-         "Fingerprint collisions ignored; no drops/closes/oversized transactions in this workload; managed mode uses monotone harness-chosen timestamps.", "4/C02"),
+         "Recorded RW histories on 5-10 keys in normal and managed mode incl. long-running transactions; oracle (a) no committed T overlaps a committed writer of a key it read, (b) every ErrConflict is justified, (c) rejected commits leave no marker; bank auditors assert the balance sum on every snapshot; single-goroutine managed-mode scripts with several open transactions and non-monotonic CommitAt timestamps judged by the exact must-reject/must-accept rule.",
+         "Fingerprint collisions ignored; no drops/closes/oversized transactions in this workload; concurrent managed histories use monotone harness-chosen timestamps, the script family arbitrary ones (Gets only: iterators register prefetched items as read).", "4/C02"),
  "C03": ("exploration", "history recording + commit-order/visibility oracles + porcupine register check, delay injection, race detector",
-         "Recorded histories with >=3-key writers, read-all readers, 40% CommitWith; distinct marker versions, real-time order implies timestamp order, post-ack transactions have ReadTs >= ts, all-or-none via the read oracle, rejected commits leave no marker, porcupine per-key register linearizability.",
-         "Rejections here are conflicts; size-limit/closed-DB rejections are covered in C28/C38.", "4/C03"),
+         "Recorded histories with >=3-key writers, read-all readers, 40% CommitWith, every second history with a concurrent DropPrefix of an unrelated prefix (commits refused with ErrBlockedWrites after taking a timestamp); distinct marker versions, real-time order implies timestamp order, post-ack transactions have ReadTs >= ts, all-or-none via the read oracle, rejected commits leave no marker, porcupine per-key register linearizability.",
+         "Rejections here are conflicts and ErrBlockedWrites; size-limit/closed-DB rejections are covered in C28/C38.", "4/C03"),
  "C04": ("exploration", "history recording + overlay reference model for own pending writes",
          "1-3 clients, up to 10 pending writes per transaction (meta, past/future expiry, discard, delete) each followed by Get/iterators created after the write; oracle overlays the pending map on the snapshot; watermark pinned so AllVersions is exact.",
          "Seeks under a configured Prefix carry the prefix.", "4/C04"),
@@ -45,8 +45,8 @@ CHECKS = {
          "Histories over 32-64 hostile keys with ~90% iterator reads of every option shape while flushes and compactions spread data over the levels; pinned watermark makes AllVersions exact; item-by-item comparison with the reference iterator.",
          "Seeks under a configured Prefix carry the prefix (semantic boundary documented in DESIGN).", "4/C05"),
  "C06": ("exploration", "history recording + full value digest comparison across a size ladder and four read paths",
-         "Value sizes 0..64KiB around static thresholds and dynamic VLogPercentile thresholds; every read path compared by digest during the run, after it and after re-open.",
-         "GC excluded (C15); sizes up to 64 KiB.", "4/C06"),
+         "Value sizes 0..64KiB around static thresholds and dynamic VLogPercentile thresholds; every read path compared by digest during the run, after it and after re-open; large-value family (1 MiB-1 .. 5 MiB next to small values) read back after two clean re-opens and after a GC pass.",
+         "GC excluded from the concurrent histories (C15); sizes up to 64 KiB there, up to 5 MiB in the sequential family.", "4/C06"),
 
  "C27": ("exploration", "runtime monitor: call-order reference model of WriteBatch vs state read back at every (key, version)",
          "Random WriteBatch call sequences in three modes (NewWriteBatch, NewWriteBatchAt, NewManagedWriteBatch with alternating versions), 1-2000 calls cutting 0-40 internal transactions; after Flush every (key, version) must hold the last call's effect.",
@@ -66,7 +66,7 @@ CHECKS = {
          "Driver histories with several tables per level and split sub-compactions; after every flush/compaction and after close/re-open: levels >=1 sorted, disjoint, no user key split across tables, files == MANIFEST == Tables(), VerifyChecksum, Open succeeds.",
          "Crash-interrupted histories are validated by C08 with the same validator.", "4/C14"),
  "C15": ("exploration", "compaction/GC driver + read-invariance oracle around every RunValueLogGC; concurrent histories with a GC loop and delays at GC phases; deterministic open-item scenarios; race detector",
-         "Driver histories with small vlog files and discard statistics, GC at ratios 0.001-0.9, normal and managed, reads compared with the model after every GC/compaction; concurrent recorded histories with GC loop and delays at gc.afterScan/gc.beforeDelete; scenarios: delete-then-GC-then-compact, Items held by an open transaction across a rewrite.",
+         "Driver histories with small vlog files and discard statistics, GC at ratios 0.001-0.9, normal and managed, reads compared with the model after every GC/compaction; concurrent recorded histories with GC loop and delays at gc.afterScan/gc.beforeDelete; scenarios: delete-then-GC-then-compact, delete between GC scan and write-back with a compaction into a non-last base level, GC write-back while the newest version awaits a held flush, Items held by an open transaction across a rewrite.",
          "Two genuine defects are listed in known_findings.json (GC resurrects a deleted key; Txn.Get item unreadable after its vlog file is rewritten).", "4/C15"),
 
  "C07": ("exploration", "compaction driver + dump equality across close/re-open kinds + file-tree hash around read-only sessions (+ strace in the thorough tier)",
@@ -79,15 +79,15 @@ CHECKS = {
          "Full backups of quiescent databases (keep=1: visible state; unbounded versions: AllVersions equals Stream.Backup's reference rules) and 3-5 step incremental chains taken while 6 committers write; the loaded chain must reproduce the final visible state; C11 oracle after Load.",
          "Load on an idle target; last backup of a chain on the quiescent source.", "4/C24"),
  "C25": ("exploration", "recorded concurrent history + Send recorder + per-key admissible-snapshot interval intersection; delay injection at stream hooks; race detector",
-         "Stream runs (NumGo 1-16, Prefix, ChooseKey, SinceTs) concurrent with 8 committers; for every chosen key the set of snapshot timestamps explaining what was delivered is intersected with [last ack before Orchestrate, inf); empty intersection = violation; each key once; Send never concurrent.",
+         "Stream runs (NumGo 1-16, Prefix, ChooseKey, SinceTs) concurrent with 8 committers; for every chosen key the set of snapshot timestamps explaining what was delivered is intersected with [last ack before Orchestrate, inf); empty intersection = violation; each key once; Send never concurrent; quiescent layout family (few small tables + memtables over lower/higher/overlapping ranges, NumGo 1/2/8): every visible key exactly once.",
          "Default ToList with NumVersionsToKeep=1.", "4/C25"),
 
  "C26": ("exploration", "runtime monitor: StreamWriter output compared with the streamed entries (model) after Flush and after re-open, plus structure validator",
-         "Generated sorted entry sets cut into 1-8 streams with random batching, interleaved stream ids and done markers, written through Prepare or 1-3 PrepareIncremental rounds, normal and managed, plain/compressed/encrypted; full state incl. AllVersions must equal the streamed entries (+ pre-existing data), C14 validator, C11 oracle.",
+         "Generated sorted entry sets cut into 1-8 streams with random batching, interleaved stream ids and done markers, written through Prepare or 1-3 PrepareIncremental rounds (every fourth run: 3000-6000 keys with one goroutine per stream calling Write concurrently), normal and managed, plain/compressed/encrypted; full state incl. AllVersions must equal the streamed entries (+ pre-existing data), C14 validator, C11 oracle.",
          "Streams obey the API precondition (sorted, non-overlapping); compaction disabled.", "4/C26"),
- "C30": ("exploration", "uniqueness/monotonicity monitor over all numbers handed out by concurrent Sequence objects across Release and restarts; race detector",
-         "2-8 goroutines on 1-4 Sequence objects for one key (bandwidth 1-5), 2-4 epochs separated by Release and close/re-open; every number returned with nil error is logged; globally unique, strictly increasing per object and caller.",
-         "Crash epochs are exercised by the crash engine (C08 family) when built; numbers compared as returned.", "4/C30"),
+ "C30": ("exploration", "uniqueness/monotonicity monitor over all numbers handed out by concurrent Sequence objects across Release, restarts and injected crashes (E2); race detector",
+         "2-8 goroutines on 1-4 Sequence objects for one key (bandwidth 1-5), 2-4 epochs separated by Release and close/re-open; every number returned with nil error is logged; globally unique, strictly increasing per object and caller; crash epochs (E2): 3 goroutines on Sequence objects in a workload child that is SIGKILLed at a random hook event 2-3 times on the same directory, a clean session after each kill; all numbers of all epochs pairwise different.",
+         "Numbers compared as returned; a Next/GetSequence that returned an error handed out nothing.", "4/C30"),
  "C31": ("exploration", "recorded Add/Get call/return history checked by a direct append-list monitor and (small histories) porcupine; race detector",
          "2-6 clients on one MergeOperator with list-append merge function, merge interval 1-40 ms, tiny memtables with background flush/compaction, 2-3 phases separated by Stop/Close/re-open; Gets must return duplicate-free prefixes-comparable lists containing every completed Add in real-time-consistent order.",
          "Merge function associative; interleavings from the merge ticker.", "4/C31"),
@@ -99,9 +99,9 @@ CHECKS = {
          "Managed driver histories with CommitAt at non-monotonic and repeated timestamps, managed write batches with per-entry versions, flush/compaction steps incl. L0->L0, snapshots at arbitrary timestamps and SetDiscardTs movement; after every step reads at the newest timestamp, through snapshots and at sampled timestamps >= discardTs are compared with the model; two families: per-key monotone timestamps (must be clean) and fully arbitrary timestamps (known finding listed).",
          "Timestamps above the discard ts; SetDiscardTs never above an open read ts.", "4/C36"),
 
- "C29": ("exploration", "sequential drop scripts vs model (+ re-open, structure validator); concurrent blind-writer histories with drops classified by call/return order; race detector",
-         "Sequential scripts with DropPrefix over hostile prefixes and DropAll between commits/batches/flushes/compactions, state compared with the model after every drop and after re-open; concurrent histories where DropPrefix runs 2-4 times against 6 blind writers: writes acknowledged before the call gone, writes after the return present, overlapping ones all-or-nothing per transaction, other keys unchanged, ErrBlockedWrites leaves no trace, writes accepted afterwards; concurrent DropAll: nothing acknowledged before the call survives.",
-         "Concurrent clients are blind writers; crash points inside drops belong to the crash engine (C08).", "4/C29"),
+ "C29": ("exploration", "sequential drop scripts vs model (+ re-open, structure validator); concurrent blind-writer histories with drops classified by call/return order; crash injection inside drops (E2); race detector",
+         "Sequential scripts with DropPrefix over hostile prefixes and DropAll between commits/batches/flushes/compactions, state compared with the model after every drop and after re-open; concurrent histories where DropPrefix runs 2-4 times against 6 blind writers: writes acknowledged before the call gone, writes after the return present, overlapping ones all-or-nothing per transaction, other keys unchanged, ErrBlockedWrites leaves no trace, writes accepted afterwards; concurrent DropAll: nothing acknowledged before the call survives; crash family (E2): workload child with a DropPrefix loop SIGKILLed at drop-phase points, at events of the drop's flushes/compactions and at random events - commit-prefix oracle on markers, dropped keys absent after a completed drop, pre-drop value or absent when the drop was cut short.",
+         "Concurrent clients are blind writers; DropAll is not part of the crash family.", "4/C29"),
  "C37": ("exploration", "twin run of one pre-drawn script on an InMemory and an on-disk database + strace of an InMemory child process",
          "Scripts (transactions, write batches, flush, compactions, DropPrefix, DropAll) executed on both databases; after every step both are compared with the model and line by line with each other; an InMemory child runs under strace -f in an empty directory: no file-creating/writing syscall, directory stays empty.",
          "Values within the in-memory limit; no GC.", "4/C37"),
